@@ -92,12 +92,12 @@ pub proof fn lemma_pow_small_base(b: int, n: nat)
     if n > 1 {
         lemma_pow_small_base(b, m);
         let p = pow_int(b, m);
-        if b == 0 { assert(b * p == 0); }
-        else if b == 1 { assert(b * p == p); }
-        else { assert(b * p == -p); }
+        if b == 0 { assert(b * p == 0) by (nonlinear_arith) requires b == 0; }
+        else if b == 1 { assert(b * p == p) by (nonlinear_arith) requires b == 1; }
+        else { assert(b * p == -p) by (nonlinear_arith) requires b == -1; }
     } else {
         assert(pow_int(b, 0) == 1);
-        assert(b * 1 == b);
+        assert(b * 1 == b) by (nonlinear_arith);
     }
 }
 
